@@ -726,7 +726,7 @@ func (g *vfSeqGen) recvIndex() uint64 {
 	if base == 0 {
 		base = 1
 	}
-	switch rapid.IntRange(0, 3).Draw(g.t, "ridx") {
+	switch vfhelp.PickN(g.t, "ridx", 4) {
 	case 0:
 		return base // same index as the local save
 	case 1:
@@ -756,7 +756,7 @@ func (g *vfSeqGen) candidates(nested bool) []string {
 			add("abortsave", 1)
 		}
 		if r.inSave == nil && r.recvTail == nil {
-			add("restart", 1)
+			add("restart", 2)
 		}
 	}
 	if r.recvTail == nil {
@@ -784,7 +784,8 @@ func (g *vfSeqGen) candidates(nested bool) []string {
 }
 
 func (g *vfSeqGen) draw(nested bool) vfSOp {
-	kind := rapid.SampledFrom(g.candidates(nested)).Draw(g.t, "op")
+	c := g.candidates(nested)
+	kind := c[vfhelp.PickN(g.t, "op", len(c))] // uniform: rapid.SampledFrom is biased towards the first elements
 	op := vfSOp{Kind: kind}
 	switch kind {
 	case "save":
@@ -794,7 +795,7 @@ func (g *vfSeqGen) draw(nested bool) vfSOp {
 		}
 		op.Index = g.next
 		op.Size = g.size(op.Index)
-		n := rapid.SampledFrom([]int{0, 0, 1, 2, 3}).Draw(g.t, "mid")
+		n := []int{0, 0, 1, 2, 3}[vfhelp.PickN(g.t, "mid", 5)]
 		if n > 0 {
 			g.hadMid = true
 		}
@@ -1190,8 +1191,8 @@ func TestVF_C16_SnapshotDirCrash(t *testing.T) {
 	totalPoints, totalOps, totalDouble := 0, 0, 0
 	rapid.Check(t, func(t *rapid.T) {
 		onDisk := rapid.Bool().Draw(t, "onDisk")
-		nops := rapid.IntRange(2, maxOps).Draw(t, "nops")
-		scenario := rapid.IntRange(0, 3).Draw(t, "scenario")
+		nops := 2 + vfhelp.PickN(t, "nops", maxOps-1)
+		scenario := vfhelp.PickN(t, "scenario", 4)
 		// phase 1: draw + execute without crash, recording the operations
 		r := newVFReplica(onDisk)
 		r.fs.record = true
